@@ -471,5 +471,6 @@ pub fn property() -> Property {
         ],
         families,
         prelude: None,
+        epilogue: None,
     }
 }
